@@ -501,12 +501,11 @@ func (u *Unit) frame() *frameSpec {
 					addStruct(ref, pt)
 				}
 			case *ast.SelectorExpr:
-				base := env.eval(x.X)
 				bt := env.typeOf(x.X)
 				if pt, ok := bt.Underlying().(*types.Pointer); ok {
 					bt = pt.Elem()
 				}
-				if ref, ok := base.(*Term); ok {
+				if ref, ok := env.evalLoc(x.X); ok {
 					dt := u.m.structInfo(bt)
 					fi := fieldIndex(bt, x.Sel.Name)
 					if isStructType(dt.fields[fi].typ) {
